@@ -86,6 +86,17 @@ def run(rep, tier, rng):
                         ("sim", fn, dn, norm, n, zero_row, tuple(map(tuple, vecs)), tuple(map(tuple, dv))), nontrivial=n >= 2)
                 if o[0] == "ok" and np.isnan(np.asarray(o[1], dtype=float)).any():
                     rep.violation("similarity returned NaN", {"case": base})
+                # cosines do not depend on magnitude: data scaled by 2^-60 (norm below machine epsilon), ndarray vocabulary scaled by 2^-55
+                if norm and n and fn == "ndarray" and dn in ("(d,)", "(T,d)"):
+                    data_s = data * 2.0 ** -60
+                    voc_s = np.asarray(fv, dtype=float) * 2.0 ** -55
+                    os_ = c.observe(lambda: similarity(data_s, voc_s, normalize=True))
+                    if single:
+                        add(f"check_similarity_norm1 {c.zmat(vecs)} {c.zlist(dv[0])} {T} {sobs(os_, algs.enc_vec)}", dict(base, op="similarity-tiny-magnitude", obs=repr(os_)[:200]),
+                            ("sim-tiny", fn, dn, n, zero_row, tuple(map(tuple, vecs)), tuple(dv[0])), nontrivial=n >= 2)
+                    else:
+                        add(f"check_similarity_norm {c.zmat(vecs)} {c.zmat(dv)} {T} {sobs(os_, algs.enc_mat)}", dict(base, op="similarity-tiny-magnitude", obs=repr(os_)[:200]),
+                            ("sim-tiny", fn, dn, n, zero_row, tuple(map(tuple, vecs)), tuple(map(tuple, dv))), nontrivial=n >= 2)
 
     # ---------------- text -----------------------------------------------------------------
     a = 2  # vectors are multiples of 1/4
